@@ -856,3 +856,104 @@ def rule_shift_distance(prog, rep, rid='G2'):
                                   '%s moves elements by %s, expected %s one element (%sobjsize): the %s' % (
                                       canon(x)[:60], repr(diff), 'up by' if incs else 'down by', '+' if incs else '-',
                                       'gap for the new element is not opened / an element is overwritten' if incs else 'hole is not closed'))
+
+
+def rule_q2(prog, rep, rid='Q2'):
+    """Every way out of a size-parameterised string routine leaves the destination terminated: each path from the entry to
+    a return passes a terminator store into the destination (`dst[k] = 0`, `*cursor = 0` for a cursor started at dst) or a
+    delegating call that hands (dst, size) to another routine of the family - except the argument-validation exits (a
+    parameter found NULL / zero).  A short-cut return on some relation between the arguments (`if (dst == src) return dst`)
+    leaves an over-long string un-truncated."""
+    rep.rule(rid, 'every non-validation path through a size-parameterised string routine passes a terminator store into the destination or '
+                  'a delegation of (dst, size) to another routine of the family')
+    unit = 'src/utilities/qstring.c'
+    prog.unit(unit)
+    funcs = [f for f in sorted(prog.funcs_in(unit), key=lambda x: x.line or 0) if _sized_dest(f) and f.body is not None]
+    family = {f.name for f in funcs}
+    for f in funcs:
+        dst, size = _sized_dest(f)
+        # validation tests: the size parameter against 0, pointer parameters (or what they point to) against NULL/0
+        pnames = [p.get('name') for p in f.params if p.get('name') == size or (qtype(p) or '').rstrip().endswith('*')]
+        aliases = {dst}
+        for x in walk(f.body):
+            if x.get('kind') == 'VarDecl' and (qtype(x) or '').replace(' ', '') == 'char*':
+                from .expr import var_init
+                init = var_init(x)
+                if init is not None and access_path(init) == dst:
+                    aliases.add(x.get('name'))
+        cfg = f.cfg
+
+        def terminates(m):
+            if not isinstance(m.ast, dict) or m.kind == 'macro':
+                return False
+            for y in walk(m.ast):
+                if y.get('kind') == 'BinaryOperator' and y.get('opcode') == '=' and int_value(children(y)[1]) == 0:
+                    l = strip(children(y)[0])
+                    if l.get('kind') == 'ArraySubscriptExpr' and access_path(children(l)[0]) in aliases:
+                        return True
+                    if l.get('kind') == 'UnaryOperator' and l.get('opcode') == '*' and access_path(children(l)[0]) in aliases:
+                        return True
+                if y.get('kind') == 'CallExpr' and prog.callee_name(y) in family and prog.callee_name(y) != f.name:
+                    a = children(y)[1:]
+                    if len(a) >= 2 and access_path(a[0]) == dst and access_path(a[1]) == size:
+                        return True
+            return False
+
+        def validation_edge(m, lab):
+            if m.kind != 'cond' or not isinstance(m.ast, dict) or lab not in ('T', 'F'):
+                return False
+            c = strip_parens(m.ast)
+            neg = False
+            while c.get('kind') == 'UnaryOperator' and c.get('opcode') == '!':
+                neg = not neg
+                c = strip_parens(children(c)[0])
+            if c.get('kind') == 'BinaryOperator' and c.get('opcode') in ('==', '!='):
+                a, b = children(c)
+
+                def root(e):
+                    e = strip(e)
+                    while e.get('kind') == 'UnaryOperator' and e.get('opcode') == '*':      # *offset, **offset
+                        e = strip(children(e)[0])
+                    return access_path(e)
+                pa, pb = root(a), root(b)
+                from .expr import is_null
+                zero_b = is_null(b) or int_value(b) == 0
+                zero_a = is_null(a) or int_value(a) == 0
+                if (pa in pnames and zero_b) or (pb in pnames and zero_a):
+                    is_zero_on_true = (c['opcode'] == '==') != neg
+                    return (lab == 'T') == is_zero_on_true
+                return False
+            p = access_path(c)
+            if p in pnames:                       # if (!p) / if (p)
+                return (lab == 'T') == neg
+            return False
+        rep.instance(rid)
+        bad = None
+        seen = set()
+        work = [(cfg.entry, [])]
+        while work and bad is None:
+            m, path = work.pop()
+            if m.id in seen:
+                continue
+            seen.add(m.id)
+            if terminates(m):
+                continue
+            if m.kind == 'act' and isinstance(m.ast, dict) and m.ast.get('kind') == 'ReturnStmt':
+                from .expr import is_null as _isnull
+                if children(m.ast) and _isnull(children(m.ast)[0]):
+                    continue                      # a failure exit delivers no string
+                bad = (m, path)
+                break
+            for (s, lab) in m.succs:
+                if validation_edge(m, lab):
+                    continue
+                if s is cfg.exit:
+                    bad = (m, path)
+                    break
+                work.append((s, path + [m]))
+        rep.oblige(rid, bad is None, {'function': f.name, 'destination': dst, 'size': size})
+        if bad is not None:
+            rep.violation(rid, f, bad[0].line, 'unterminated-exit',
+                          '%s can return at line %s without having stored a terminator into %s (and not through an argument-validation '
+                          'exit): a destination longer than %s - 1 characters stays un-truncated on that path' % (f.name, bad[0].line, dst, size),
+                          path=['%s:%s' % (f.relfile, p.line) for p in bad[1] if p.kind in ('cond', 'act')][:12])
